@@ -620,7 +620,10 @@ pub fn alt_order(common_syntax: bool) -> Vec<String> {
 // ---------------------------------------------------------------------------
 // fixed witnesses (known findings and regression shapes), always run
 
-pub const WITNESSES: [&str; 52] = [
+pub const WITNESSES: [&str; 72] = [
+    // round 8: an anchor inside a look-around at the very start (start-position shortcuts),
+    // lazy and possessive exact counts
+    "(?!\\A)a", "(?!^)a", "(?!^a).", "(?:(?!^)b|(?!^b)c)", "((?!\\Aa)[ab])\\1", "(?=\\A)a", "(?<!^)a(?=)", "(?!$)a?(?=)", "(?!\\z).(?=)", "(?<=\\A)a|(?!\\A)b", "(x)?(?:a){1}?", "(?:a){1}?b", "(a|b){1}?c", "a{1}?(?=)", "(?:a{1}?){2}", "(a){1}?\\1", "(?:ab){1}?(?!c)", "a{1}+b", "(?:a|ab){2}+c", "(?:a+){2}+a",
     "((a)|)\\1*b",
     "((a)*)\\1+b",
     "((a)?)\\1*b",
